@@ -1,7 +1,7 @@
 //! This module defines the translation of let-bindings.
 
 use crate::{
-    compile::{Compile, CompileState},
+    compile::{Compile, CompileState, captures, compile_outside_cont},
     types::compile_ty,
 };
 use core_lang::syntax::{names::Identifier, terms::Cns};
@@ -17,11 +17,20 @@ impl Compile for fun::syntax::terms::Let {
     /// ```text
     /// 〚let x := t_1; t_2 〛_{c} = 〚t_1 〛_{μ~x.〚t_2 〛_{c}}
     /// ```
+    /// If `x` occurs free in `c`, the continuation is kept outside of the binder (see
+    /// [compile_outside_cont]).
     fn compile_with_cont(
         self,
         cont: core_lang::syntax::terms::Term<Cns>,
         state: &mut CompileState,
     ) -> core_lang::syntax::Statement {
+        // the continuation is going to be placed under the binder of the let: if it mentions a
+        // variable of that name, it has to stay outside
+        if captures(std::iter::once(&self.variable), &cont) {
+            let ty = self.ty.clone();
+            return compile_outside_cont(self, ty, cont, state);
+        }
+
         let ty = compile_ty(&self.var_ty);
         // new continuation: μ~x.〚t_2 〛_{c}
         let new_cont = core_lang::syntax::terms::Mu {
